@@ -208,15 +208,12 @@ impl<K, V, A: Allocator> CaoHashMap<K, V, A> {
     {
         debug_assert!(h != 0, "Bad handle, 0 values are reserved");
 
-        // find the bucket
-        let hashes = self.hashes();
-        let keys = self.keys.as_ptr();
-        let values = self.values.as_ptr();
-
-        let i = self.find_ind(h, &key);
-        if hashes[i] != 0 {
-            debug_assert_eq!(hashes[i], h);
+        let mut i = self.find_ind(h, &key);
+        if self.hashes()[i] != 0 {
+            debug_assert_eq!(self.hashes()[i], h);
             // delete the old entry
+            let keys = self.keys.as_ptr();
+            let values = self.values.as_ptr();
             if std::mem::needs_drop::<K>() {
                 std::ptr::drop_in_place(keys.add(i));
             }
@@ -224,16 +221,32 @@ impl<K, V, A: Allocator> CaoHashMap<K, V, A> {
                 std::ptr::drop_in_place(values.add(i));
             }
         } else {
+            // grow before writing a new key, so that a failed allocation leaves the map
+            // unchanged and the load factor is never exceeded.
+            // No grow is triggered if the key overrides an existing value
+            if Self::needs_grow(self.count + 1, self.capacity) {
+                self.grow()?;
+                i = self.find_ind(h, &key);
+            }
             self.hashes_mut()[i] = h;
             self.count += 1;
         }
-        std::ptr::write(keys.add(i), key);
-        std::ptr::write(values.add(i), value);
-        // delaying grow so that no grow is triggered if the key overrides an existing value
-        if Self::needs_grow(self.count, self.capacity) {
-            self.grow()?;
-        }
+        std::ptr::write(self.keys.as_ptr().add(i), key);
+        std::ptr::write(self.values.as_ptr().add(i), value);
         Ok(())
+    }
+
+    /// Insert a key that is known to be absent, without checking the load factor
+    unsafe fn insert_unique_no_grow(&mut self, h: u64, key: K, value: V)
+    where
+        K: Eq,
+    {
+        let i = self.find_ind(h, &key);
+        debug_assert_eq!(self.hashes()[i], 0);
+        self.hashes_mut()[i] = h;
+        self.count += 1;
+        std::ptr::write(self.keys.as_ptr().add(i), key);
+        std::ptr::write(self.values.as_ptr().add(i), value);
     }
 
     fn needs_grow(count: usize, capacity: usize) -> bool {
@@ -273,7 +286,8 @@ impl<K, V, A: Allocator> CaoHashMap<K, V, A> {
             if hash != 0 {
                 let key = std::ptr::read(keys.as_ptr().add(i));
                 let val = std::ptr::read(values.as_ptr().add(i));
-                self.insert_with_hint(hash, key, val)?;
+                // the new storage is large enough: moving entries must neither fail nor grow
+                self.insert_unique_no_grow(hash, key, val);
             }
         }
 
